@@ -5,8 +5,8 @@
    (PathMatcher, SmarterPathSplitter), Res/Replacement.v (replacement.Filter).
    External behaviour enters as parameters: [parse] (regexp.Compile: pattern text -> AST),
    [lsel] (k8s label selectors), [enc] (go-yaml emitter), [cluster_scoped] (openapi). *)
-From KV Require Import Base.Regex Base.RegexProofs Yaml.Match Yaml.MatchProofs
-  Res.Image Res.ImageProofs Res.Selector Res.SelectorProofs Res.Replica Res.ReplicaProofs
+From KV Require Import Base.Regex Base.RegexProofs Yaml.Match Yaml.MatchProofs Yaml.MatchTotalProofs
+  Res.Image Res.ImageProofs Res.ImageNormProofs Res.Selector Res.SelectorProofs Res.Replica Res.ReplicaProofs
   Res.Replacement Res.ReplacementProofs.
 
 (* ------------------------------------------------------------------ regular expressions *)
@@ -75,6 +75,13 @@ Theorem C10_image_exact :
     forall s t, literal_text t = true -> (is_matched parse s t = Ok true <-> image_ref_of t s).
 Proof. exact image_exact. Qed.
 Print Assumptions C10_image_exact.
+
+(* The check the correspondence performs on the AST Go's parser produced for a literal entry name
+   (case kind KImgAst: equal normal forms) implies the hypothesis of C10_image_exact for that name. *)
+Theorem C10_image_ast_check_sound : forall (r : re) (t : string),
+  re_eqb (norm r) (norm (img_re t)) = true -> forall s, matches r s = matches (img_re t) s.
+Proof. exact ast_check_sound. Qed.
+Print Assumptions C10_image_ast_check_sound.
 
 (* The unrestricted statement is FALSE for the code as it is: the entry x.y matches the image xzy:1
    (finding C10/image-name-unquoted-regex; r is the AST Go's parser yields for the pattern). *)
@@ -166,19 +173,19 @@ Print Assumptions C10_replica_only_count.
 (* Resource level: a resource that no target selector wants — its label/annotation selectors
    reject it, or none of its ids is selected, or one of its ids is rejected — is left untouched. *)
 Theorem C10_replacement_exact :
-  forall parse enc nonstr cluster_scoped lsel fuel (value : node) (tss : list target_selector) (rs rs' : list node),
-    apply_replacement parse enc nonstr cluster_scoped lsel fuel value tss rs = Ok rs' ->
+  forall parse enc nonstr lsel fuel (value : node) (tss : list target_selector) (rs rs' : list node),
+    apply_replacement parse enc nonstr lsel fuel value tss rs = Ok rs' ->
     List.length rs' = List.length rs /\
     forall i n, nth_error rs i = Some n ->
-      (forall ts sel, In ts tss -> ts_select ts = Some sel -> ~ wants cluster_scoped lsel ts sel n) ->
+      (forall ts sel, In ts tss -> ts_select ts = Some sel -> ~ wants lsel ts sel n) ->
       nth_error rs' i = Some n.
 Proof. exact replacement_untouched. Qed.
 Print Assumptions C10_replacement_exact.
 
 Theorem C10_replacement_rejected_untouched :
-  forall cluster_scoped lsel (ts : target_selector) (sel : selector) (n : node) (ids : list resid),
-    make_res_ids n = Ok ids -> contains_reject_id cluster_scoped (ts_reject ts) ids = true ->
-    ~ wants cluster_scoped lsel ts sel n.
+  forall lsel (ts : target_selector) (sel : selector) (n : node) (ids : list resid),
+    make_res_ids n = Ok ids -> contains_reject_id (ts_reject ts) ids = true ->
+    ~ wants lsel ts sel n.
 Proof. exact rejected_not_wanted. Qed.
 Print Assumptions C10_replacement_rejected_untouched.
 
@@ -251,6 +258,16 @@ Theorem C10_match_total_partial :
     pm parse enc nonstr None (S fuel) path n <> Diverge.
 Proof. exact pm_nocreate_total. Qed.
 Print Assumptions C10_match_total_partial.
+
+(* PARTIAL, with Create: for paths of the usual replacement shape — any parts, then at most one list
+   selector, then only non-empty field names — PathMatcher returns (two units of fuel suffice)
+   provided every list selector value, compiled, matches the text of the scalar holding it. *)
+Theorem C10_match_create_total_partial :
+  forall parse enc nonstr (k : kind) fuel (path : list string),
+    sel_then_fields path = true -> self_matching parse enc path ->
+    forall n, pm parse enc nonstr (Some k) (S (S fuel)) path n <> Diverge.
+Proof. exact pm_create_total. Qed.
+Print Assumptions C10_match_create_total_partial.
 
 Theorem C10_match_nocreate_pure :
   forall parse enc nonstr fuel (path : list string) (n n' : node) (hits : list hit),
